@@ -60,6 +60,7 @@ var Catalogue = [][]Pat{
 	set("/:v/a", "/:v/b", "/:v/a/:w", "/a/:v/:w"),
 	set("/a=:x/a=:y/a=:z"),
 	set("/a/:x/a/:y/a/*z", "/a/a/a/a/a/a"),
+	set("/café/:id", "/Cafe/:id", "/日本/:city/駅", "/ü/*rest"),
 }
 
 func seedPaths(pats []Pat) []string {
